@@ -31,12 +31,24 @@ CONFORMABLE = {"Mdiff", "Mconv", "Mup", "Mupalt", "ghost", "Mbc", "Rbc", "grad",
                "arithmean", "harmmean", "upmean", "Msrc", "Rsrc"}
 
 
-def make_episodes(configs, clauses_for, extra_conform=()):
+SOLVE_CLAUSES = {"C04_Solves", "C04_SameObject", "C04_SameAsMatrixPDE", "C04_ExternalSolver", "C04_Variants",
+                 "C04_Linear", "C04_Assembly", "C12_Residual", "C12_FixedPoint", "C12_ExplicitStep",
+                 "C12_ExplicitBCs", "C12_InputUntouched", "C12_ExplicitUsable", "C03_SolvedRobin"}
+for _c in SOLVE_CLAUSES:
+    NEEDS[_c] = []
+
+
+def make_episodes(configs, clauses_for, extra_conform=(), observe=None):
     eps = []
     for k, cfg in enumerate(configs):
         wanted = clauses_for(cfg)
         want = sorted({o for cl in wanted for o in NEEDS[cl]} | set(extra_conform))
-        obs = opsdrive.observe(cfg, want)
+        obs = (observe or opsdrive.observe)(cfg, want)
+        if obs.get("skipped"):
+            eps.append({"id": k, "cfg": cfg, "obs": obs, "wanted": [], "conform": [], "skipped": obs["skipped"]})
+            continue
+        if "r_fixed" not in obs:
+            wanted = [w for w in wanted if w != "C12_FixedPoint"]
         conform = sorted((set(want) | set(extra_conform)) & CONFORMABLE & set(obs))
         eps.append({"id": k, "cfg": cfg, "obs": obs, "wanted": sorted(wanted), "conform": conform})
     return eps
@@ -48,12 +60,12 @@ def validate(episodes, chunk=40, timeout=1800):
     return {v["ep"]: v for v in verdicts}, tot
 
 
-def gen_configs(seed, n_per_class, classes=None, **kw):
+def gen_configs(seed, n_per_class, classes=None, generator=None, **kw):
     rng = random.Random(seed)
     out = []
     for cls in classes or drive.CLASSES:
         for _ in range(n_per_class):
-            out.append(opsdrive.gen_config(rng, cls, **kw))
+            out.append((generator or opsdrive.gen_config)(rng, cls, **kw))
     return out
 
 
@@ -81,7 +93,7 @@ def offsets_str(detail):
 
 def run_property(prop, tier, seed, *, clauses_for, n_quick, n_thorough, gen_kw=None, extra_conform=(),
                  design=None, rule="", assumptions=(), classes=None, extra_configs=(), sig_extra=None,
-                 chunk=25):
+                 chunk=25, observe=None, generator=None):
     """generic numeric-layer check: generate configurations (seeded), drive the real code,
     validate the lifted observations with FVTraceOps, report."""
     from findings import Report
@@ -91,8 +103,8 @@ def run_property(prop, tier, seed, *, clauses_for, n_quick, n_thorough, gen_kw=N
     configs = list(des.get("configs", [])) + list(extra_configs)
     kws = gen_kw if isinstance(gen_kw, list) else [gen_kw or {}]
     for j, kw in enumerate(kws):
-        configs += gen_configs(seed * 1000 + j, max(1, n // len(kws)), classes=classes, **kw)
-    episodes = make_episodes(configs, clauses_for, extra_conform)
+        configs += gen_configs(seed * 1000 + j, max(1, n // len(kws)), classes=classes, generator=generator, **kw)
+    episodes = make_episodes(configs, clauses_for, extra_conform, observe=observe)
     by_id, tot = validate(episodes, chunk=chunk)
     per_class, per_clause = {}, {}
     for e in episodes:
@@ -119,7 +131,10 @@ def run_property(prop, tier, seed, *, clauses_for, n_quick, n_thorough, gen_kw=N
     missing = [c for c in (classes or drive.CLASSES) if not per_class.get(c)]
     if missing:
         raise tlcrun.MachineryError(f"vacuity: no configuration for {missing}")
-    distinct = {nontrivial_hash(e["cfg"]) for e in episodes if max(len(f) for f in e["cfg"]["faces"]) > 2}
+    distinct = {nontrivial_hash(e["cfg"]) for e in episodes
+                if max(len(f) for f in e["cfg"]["faces"]) > 2 and not e.get("skipped")}
+    if len(episodes) and sum(1 for e in episodes if e.get("skipped")) > len(episodes) // 2:
+        raise tlcrun.MachineryError("vacuity: more than half of the instances were skipped as ill-conditioned")
     samp = episodes[len(episodes) // 2]
     cov = {
         "states": des.get("states", 0) + tot["distinct"], "transitions": des.get("transitions", 0) + tot["states"],
@@ -128,6 +143,7 @@ def run_property(prop, tier, seed, *, clauses_for, n_quick, n_thorough, gen_kw=N
         "rule": rule or "seeded configurations of the bounded space (DESIGN 5) plus the configurations enumerated by the "
                         "design model; non-trivial = at least two cells on some axis; distinct by canonical hash",
         "exhaustive": False, "per_grid_class": per_class, "per_clause": per_clause,
+        "skipped_ill_conditioned": sum(1 for e in episodes if e.get("skipped")),
         "design_model": {k: des[k] for k in des if k != "configs"},
         "samples": [{"cfg": {k: samp["cfg"][k] for k in ("cls", "faces", "bc")}, "wanted": samp["wanted"],
                      "verdict": by_id[samp["id"]]}],
